@@ -61,7 +61,7 @@ def signature_rules(r, lib, R):
         kind = None
         if f.get("impl_self", {}).get("adt") == "options::Options":
             kind = "Options builder"
-        elif R.ok and (path == R.body.name or path in [b.name for b in R.entry]):
+        elif R.ok and (path == R.body.name or path in [b.name for b in R.entry] or path in getattr(R, "helpers", ())):
             kind = "renderer"
         r.ob("R10.1.options-visibility", path, kind is not None,
              "%s (may depend on options by design)" % kind if kind else "function outside the renderer receives/returns Options: its result can vary with the options",
@@ -69,7 +69,7 @@ def signature_rules(r, lib, R):
     # closures inside non-renderer functions cannot capture Options either: check locals of all other bodies
     n = 0
     for b in lib.real_bodies():
-        if R.ok and (b.name == R.body.name or b.name.startswith(R.body.name + "::") or b.name in [x.name for x in R.entry]):
+        if R.ok and (b.name == R.body.name or b.name.startswith(R.body.name + "::") or b.name in [x.name for x in R.entry] or b.name in getattr(R, "helpers", ())):
             continue
         if b.name.startswith("options::"):
             continue
@@ -124,12 +124,34 @@ def use_rules(r, R):
         n = site.node
         key = "R10.2|%s|" % (field or "<whole>")
         if field is None:
-            # whole reference: only as the options argument of the recursive call (through a reborrow temp)
+            # whole reference: only handed to the recursive call (possibly through copies of the reference,
+            # e.g. parameters of inlined emission helpers, whose field reads are classified on their own)
             dst = n["place"]["l"] if site.si is not None and n["k"] == "assign" else None
-            users = [cs for cs in b.calls() if any(mir.op_place(a) is not None and mir.op_place(a)["l"] == dst and not mir.op_place(a)["p"] for a in cs.node["args"])] if dst is not None else []
-            ok = bool(users) and all(u.node["callee"].get("path") == fn for u in users)
+            aliases = set()
+            work = [dst] if dst is not None else []
+            while work:
+                x = work.pop()
+                if x in aliases:
+                    continue
+                aliases.add(x)
+                for s2 in b.assigns():
+                    rv2 = s2.node["rv"]
+                    if s2.node["place"]["p"]:
+                        continue
+                    src = None
+                    if rv2["k"] == "use":
+                        src = mir.op_place(rv2["op"])
+                        if src is not None and src["p"]:
+                            src = None
+                    elif rv2["k"] == "ref" and rv2["place"]["p"] == ["deref"]:
+                        src = rv2["place"]
+                    if src is not None and src["l"] == x:
+                        work.append(s2.node["place"]["l"])
+            users = [cs for cs in b.calls() if any(mir.op_place(a) is not None and mir.op_place(a)["l"] in aliases and not mir.op_place(a)["p"] for a in cs.node["args"])]
+            bad_users = [u for u in users if u.node["callee"].get("path") != getattr(R, "orig_name", fn) and u.node["callee"].get("path") != fn]
+            ok = not bad_users
             r.ob("R10.2.option-use", "%s: &options" % fn, ok, "passed on to the recursive rendering only" if ok else
-                 "the options reference is handed to %s" % [cname(u.node) for u in users], site=site, key=key + "recursive")
+                 "the options reference is handed to %s" % [cname(u.node) for u in bad_users], site=site, key=key + "recursive")
             continue
         if site.si is not None and n["k"] == "assign" and n["rv"]["k"] == "discr":
             # enum-valued option: the switch and its alternatives
@@ -238,7 +260,7 @@ def use_rules(r, R):
 def _consumers(b, tmp, depth=0):
     """calls consuming a reference temp (following re-borrows, tuple packing by format_args)"""
     out = []
-    if depth > 6:
+    if depth > 24:
         return out
     for s in b.sites():
         if s.si is not None and s.node["k"] == "assign":
@@ -248,7 +270,7 @@ def _consumers(b, tmp, depth=0):
                 srcs = [rv["op"]]
             elif rv["k"] == "ref":
                 p = rv["place"]
-                if p["l"] == tmp and p["p"] == ["deref"]:
+                if p["l"] == tmp and p["p"] in (["deref"], []):
                     out += _consumers(b, s.node["place"]["l"], depth + 1)
                 continue
             elif rv["k"] == "agg":
@@ -271,7 +293,10 @@ def _consumers(b, tmp, depth=0):
             for a in s.node["args"]:
                 p = mir.op_place(a)
                 if p is not None and p["l"] == tmp and not p["p"]:
-                    out.append(s)
+                    if cname(s.node) in mir.TRANSPARENT_CALLS:
+                        out += _consumers(b, s.node["dest"]["l"], depth + 1)
+                    else:
+                        out.append(s)
     return out
 
 
@@ -432,9 +457,10 @@ def constructor_rules(r, lib):
         return
     fields = [f["name"] for f in adt["variants"][0]["fields"]]
     for path, f in sorted(lib.fns.items()):
-        if f.get("impl_self", {}).get("adt") != "options::Options" or path not in lib.bodies:
+        if f.get("impl_self", {}).get("adt") != "options::Options" or path not in lib.bodies or not f.get("pub"):
             continue
-        b = lib.bodies[path]
+        from .common import look_through_private
+        b = look_through_private(lib, lib.bodies[path])
         effects = [cname(cs.node) for cs in b.calls() if cname(cs.node) not in (
             "std::string::ToString::to_string", "std::convert::Into::into", "std::convert::From::from", "std::borrow::ToOwned::to_owned",
             "std::clone::Clone::clone", "std::string::String::new", "std::string::String::from")]
